@@ -11,6 +11,8 @@ use crate::density::{Fault, FaultKind};
 use crate::driver::{RunOutcome, Scenario};
 use crate::prng::{Digest, Prng};
 use crate::simmath::MathEvent;
+#[allow(unused_imports)]
+use nuts_rs::verif::TapState;
 use crate::swarm::shrink_chain_cfg;
 
 #[derive(Clone, Debug)]
@@ -27,43 +29,38 @@ fn is_nuts(p: &Preset) -> bool {
     p.is_nuts()
 }
 
-/// Segment the evaluations of draw call with range (n0, n1) using the momentum draws seen at the seam.
+/// Segment the evaluations of the draw call with range (n0, n1) using the trajectory tap (hook H3): the
+/// first group of tapped leapfrogs after the first start state is the NUTS trajectory; a second start state
+/// opens a re-run step-size search, whose base point is the evaluation right before it.
 pub fn segment(h: &History, cfg: &ChainCfg, n0: u64, n1: u64) -> CallSeg {
     if !is_nuts(&cfg.preset) {
         return CallSeg { n0, n1, traj_end: n1, search_base: None };
     }
-    let gs: Vec<u64> = h
-        .math_events
+    let tap: &[nuts_rs::verif::TapState] = h
+        .draws
         .iter()
-        .filter_map(|e| match e {
-            MathEvent::Gaussian { at_eval, .. } if *at_eval >= n0 && *at_eval <= n1 => Some(*at_eval),
+        .find(|d| d.evals == (n0, n1))
+        .map(|d| &d.tap[..])
+        .or_else(|| match &h.failed_call {
+            Some((_, _, r)) if *r == (n0, n1) => Some(&h.failed_tap[..]),
             _ => None,
         })
-        .collect();
-    // gaussians of this call: the trajectory's momentum (at n0); a later one belongs to a re-run search.
-    // (a gaussian at_eval == n1 that opens the next call's trajectory is excluded by taking only those
-    // that are followed by evaluations of this call, except the very first)
-    let mut in_call: Vec<u64> = vec![];
-    let mut seen_first = false;
-    for g in gs {
-        if !seen_first {
-            if g == n0 {
-                seen_first = true;
-                in_call.push(g);
-            }
+        .unwrap_or(&[]);
+    let mut starts = 0;
+    let mut traj_len = 0u64;
+    for t in tap {
+        if t.start {
+            starts += 1;
             continue;
         }
-        if g < n1 || (g == n1 && false) {
-            in_call.push(g);
+        if starts == 1 {
+            traj_len += 1;
         }
     }
-    if in_call.len() >= 2 {
-        let e2 = in_call[1];
-        let base = e2.saturating_sub(1).max(n0);
-        CallSeg { n0, n1, traj_end: base, search_base: Some(base) }
-    } else {
-        CallSeg { n0, n1, traj_end: n1, search_base: None }
-    }
+    let traj_end = (n0 + traj_len).min(n1);
+    // anything evaluated after the trajectory belongs to a re-run search: its first evaluation is the base point
+    let search_base = if traj_end < n1 { Some(traj_end) } else { None };
+    CallSeg { n0, n1, traj_end, search_base }
 }
 
 fn bits(v: &[f64]) -> Vec<u64> {
@@ -110,7 +107,9 @@ pub fn check_draws(prop: &str, cfg: &ChainCfg, h: &History, out: &mut RunOutcome
             return;
         }
         let same_as_prev = pb == bits(&prev_pos);
-        let matching: Vec<&&crate::density::EvalRecord> = traj.iter().filter(|e| e.fault.is_none() && !e.returned_err && bits(&e.pos) == pb).collect();
+        // a state is valid if the density returned finite values there (an injected energy jump yields a
+        // finite, merely lower, log density: whether it diverges is judged by the divergence rule)
+        let matching: Vec<&&crate::density::EvalRecord> = traj.iter().filter(|e| !e.returned_err && e.logp.is_finite() && e.grad.iter().all(|g| g.is_finite()) && bits(&e.pos) == pb).collect();
         if !same_as_prev && matching.is_empty() {
             out.violate(
                 format!("{prop}/draw_not_a_trajectory_state/{pname}"),
